@@ -62,6 +62,12 @@ package state
 //@   ghost outEpoch int
 //@   ghost inEpoch int
 //@   invariant handlers: self.prioSeqHandler != nil && self.reglSeqHandler != nil && self.prioSeqHandler != self.reglSeqHandler
+//@   invariant cipher-key [C15]: (self.inCipher != nil ==> aeadkey(self.inCipher) == base(self.inKey)) && (self.outCipher != nil ==> aeadkey(self.outCipher) == base(self.outKey))
+
+// The cipher returned is keyed with the new key (not the old one), and the new key is a new buffer.
+//@ func rolloverKey
+//@   modifies nothing
+//@   ensures keyed-with-new-key [C15]: err == nil ==> newCipher != nil && aeadkey(newCipher) == base(newKey) && fresh(base(newKey)) && len(newKey) == 32
 
 //@ func EncryptionSession.rolloverOutKey
 //@   modifies s.outKey, s.outCipher
@@ -75,7 +81,9 @@ package state
 
 //@ func EncryptionSession.Out
 //@   modifies s.lock, s.outKey, s.outCipher, s.reglSeqHandler.outSeq.v, s.prioSeqHandler.outSeq.v, s.prioSeqHandler.highest, s.prioSeqHandler.lock, s.reglSeqHandler.lock, s.reglSeqHandler.issued, s.prioSeqHandler.issued, s.prioSeqHandler.seen, s.outEpoch
+//@   callsite SequenceHandler.NextOut under-session-lock [C15]: s.lock.held
 //@   ensures nonzero [C15]: err == nil ==> seqNum != 0 && c != nil
+//@   ensures current-cipher [C15]: err == nil ==> c == s.outCipher && aeadkey(c) == base(s.outKey)
 //@   ensures unique-regular [C15]: err == nil && !prio && s.outEpoch == old(s.outEpoch) ==> !old(s.reglSeqHandler.issued[seqNum]) && s.reglSeqHandler.issued[seqNum]
 //@   ensures unique-priority [C15]: err == nil && prio ==> !old(s.prioSeqHandler.issued[seqNum]) && s.prioSeqHandler.issued[seqNum] && s.outEpoch == old(s.outEpoch)
 //@   ensures rollover-at-wrap [C15]: err == nil && !prio ==> (s.outEpoch == old(s.outEpoch) + 1) == (old(s.reglSeqHandler.outSeq.v) == 0xFFFFFFFF)
@@ -84,7 +92,7 @@ package state
 
 //@ func EncryptionSession.In
 //@   modifies s.lock, s.inKey, s.inCipher, s.reglSeqHandler.highest, s.prioSeqHandler.highest, s.prioSeqHandler.outSeq.v, s.prioSeqHandler.lock, s.reglSeqHandler.lock, s.reglSeqHandler.seen, s.prioSeqHandler.seen, s.prioSeqHandler.issued, s.inEpoch
-//@   ensures cipher [C15]: err == nil ==> c != nil
+//@   ensures cipher [C15]: err == nil ==> c != nil && c == s.inCipher && aeadkey(c) == base(s.inKey)
 //@   ensures rollover-cond [C15]: err == nil && !prio ==> (s.inEpoch == old(s.inEpoch) + 1) == rollCond(old(s.reglSeqHandler.highest), seqNum)
 //@   ensures rollover-restarts [C15]: err == nil && s.inEpoch != old(s.inEpoch) ==> s.reglSeqHandler.highest == 0 && s.prioSeqHandler.highest == 0
 //@   ensures prio-never-rolls [C15]: prio ==> s.inEpoch == old(s.inEpoch)
